@@ -12,6 +12,7 @@ func init() {
 			c.WatermarkConversions("C02", s, "prop")
 			c.RecordBeforeApprove("C02", s, "prop")
 			c.StoreCommit("C03", s)
+			c.BadgerBufferDiscipline("C11")
 			c.EntryAlignment("C02", s, "prop")
 			c.StateStoreDiscipline("C02", s, "prop")
 			c.RulerLocking("C02")
@@ -31,6 +32,7 @@ func init() {
 			}
 			c.SyncOption("C03")
 			c.StoreCommit("C03", s)
+			c.BadgerBufferDiscipline("C11")
 			c.WhoWrites("C03")
 			c.ForkJoinRules("C03")
 			c.RecordBeforeApprove("C03", s, "att")
